@@ -138,7 +138,13 @@ def _resume_runs(env: Env, out: Outcome, n: int, extra: list[dict]) -> None:
         if waiting:
             out.nontrivial((repr(spec), tuple(tr1.actions), tuple(tr2.actions)))
         case = {"resume": {"spec": spec, "seed": seed, "actions1": tr1.actions, "actions2": tr2.actions}}
-        rehydrated = {(nm, w.waiter_id) for nm, w in waiting if w.has_requirements or w.requirements}
+        def _rec_id(w: Any) -> str:
+            # the id the step records for this waiter (auto-generated ids are recorded as auto<type>:<k>)
+            if str(w.waiter_id).startswith("waiter_"):
+                return f"auto{ET.TY_ID[w.waiting_for_event]}:{(w.requirements or {}).get('k')!r}"
+            return w.waiter_id
+
+        rehydrated = {(nm, _rec_id(w)) for nm, w in waiting if w.has_requirements or w.requirements}
         for v in monitors.mon_c10(tr2, earlier_users=monitors.c10_waiter_users(tr1)):
             v.replay = case
             if v.signature == "C10/resumed_more_than_once" and any(f"'{nm}'" in v.what and f"'{wid}'" in v.what for nm, wid in rehydrated if (nm, wid) in rehydrated):
